@@ -72,39 +72,61 @@ impl Prop for TextForms {
         if interfere {
             cx.label("other_types_used_with_the_same_patterns_first");
         }
+        let step = std::cell::Cell::new(0u64);
         let prelude = || {
             if !interfere {
                 return;
             }
+            // one pattern of the text forms and one other type per step, used as the *last* calls
+            // before the step (a one-entry memo only remembers the last call)
+            const PATTERNS: [&str; 9] = [
+                "yyyy/MM/dd", "HH:mm:ss", "yyyy/MM/dd HH:mm:ss", "yyyy-MM-dd", "yyyy-MM-ddTHH:mm:ssXXX", "yyyy-MM-ddTHH:mm:ss.nnXXX", "yyyy-MM-ddTHH:mm:ss.nnnXXX",
+                "yyyy-MM-ddTHH:mm:ss.nnnnXXX", "yyyy-MM-ddTHH:mm:ss.nnnnnXXX",
+            ];
+            let h = (c.v.ns as u64 / 3) ^ (c.v.day as u64) ^ ((c.off as u64) << 7);
+            let k = step.get();
+            step.set(k + 1);
+            let p = PATTERNS[((h / 3 + k) % PATTERNS.len() as u64) as usize];
+            let others: Vec<Kind> = [Kind::Date, Kind::Time, Kind::DateTime].into_iter().filter(|o| *o != c.kind).collect();
+            let o = others[((h / 64 + k) % 2) as usize];
+            let parse_last = (h / 128 + k) % 2 == 0;
             let _ = catch(|| {
                 let d = mk_date(c.v.day);
                 let t = mk_time(c.v.ns as u64).set_offset(Offset::Fixed(if c.kind == Kind::Date { 3_600 } else { c.off }));
                 let dt = mk_dt(c.v.i());
-                for p in ["yyyy/MM/dd", "HH:mm:ss", "yyyy/MM/dd HH:mm:ss", "yyyy-MM-dd"] {
-                    if c.kind != Kind::Date {
-                        let x = d.format(p);
-                        let _ = Date::parse(&x, p);
-                    }
-                    if c.kind != Kind::Time {
-                        let x = t.format(p);
-                        let _ = Time::parse(&x, p);
-                    }
-                    if c.kind != Kind::DateTime {
-                        let x = dt.format(p);
-                        let _ = DateTime::parse(&x, p);
+                if k == 0 {
+                    // the other types' own text forms
+                    match o {
+                        Kind::Date => {
+                            let _ = serde_json::to_string(&d);
+                            let _ = d.to_string();
+                        }
+                        Kind::Time => {
+                            let _ = serde_json::to_string(&t);
+                            let _ = t.to_string();
+                        }
+                        Kind::DateTime => {
+                            let _ = serde_json::to_string(&dt).ok().and_then(|j| serde_json::from_str::<DateTime>(&j).ok());
+                            let _ = dt.to_string();
+                        }
                     }
                 }
-                if c.kind != Kind::Date {
-                    let _ = d.to_string();
-                    let _ = serde_json::to_string(&d);
-                }
-                if c.kind != Kind::Time {
-                    let _ = t.to_string();
-                    let _ = serde_json::to_string(&t);
-                }
-                if c.kind != Kind::DateTime {
-                    let _ = dt.to_string();
-                    let _ = serde_json::to_string(&dt).ok().and_then(|j| serde_json::from_str::<DateTime>(&j).ok());
+                let fmt_with = |p: &str| match o {
+                    Kind::Date => d.format(p),
+                    Kind::Time => t.format(p),
+                    Kind::DateTime => dt.format(p),
+                };
+                let parse_with = |x: &str, p: &str| match o {
+                    Kind::Date => Date::parse(x, p).is_ok(),
+                    Kind::Time => Time::parse(x, p).is_ok(),
+                    Kind::DateTime => DateTime::parse(x, p).is_ok(),
+                };
+                let x = fmt_with(p);
+                if parse_last {
+                    let _ = parse_with(&x, p);
+                } else {
+                    let _ = parse_with(&x, p);
+                    let _ = fmt_with(p);
                 }
             });
         };
